@@ -413,7 +413,7 @@ fn run_c29(ctx: &mut Ctx, rep: &mut Report) {
                 Outcome::UpdatedSnapshot | Outcome::UpdatedDelta => servers.publish(&w2, &p2, &fake, &faults),
                 Outcome::NotModified => servers.publish(&w1, &p1, &fake, &faults),
                 Outcome::FailedCurrent | Outcome::FailedCurrentRefreshed304 | Outcome::FailedCurrentRefreshedSameSerial | Outcome::FailedStale | Outcome::FailedNoCopy => {
-                    faults.insert(1usize, match rng.usize(3) { 0 => Faults { notify_status: Some(500), ..Default::default() }, 1 => Faults { notify_broken_xml: true, ..Default::default() }, _ => Faults { snapshot_status: Some(404), delta_fault: Some((0, crate::net::rrdp::DeltaFault::Status(404))), ..Default::default() } });
+                    faults.insert(1usize, match (if outcome == Outcome::FailedStale && _round % 2 == 0 { 3 } else { (case_no + rng.usize(2)) % 3 }) { 3 => Faults { notify_status: Some(*rng.pick(&[302u16, 301, 307])), ..Default::default() }, 0 => Faults { notify_status: Some(500), ..Default::default() }, 1 => Faults { notify_broken_xml: true, ..Default::default() }, _ => Faults { snapshot_status: Some(404), delta_fault: Some((0, crate::net::rrdp::DeltaFault::Status(404))), ..Default::default() } });
                     servers.publish(&w2, &p2, &fake, &faults);
                 }
             }
